@@ -239,6 +239,19 @@ func (g *Gen) rewards() GenTx {
 	}
 }
 
+var govOptionKeys = []string{"feeOption.minFeeDecimal", "onsOptions.perBlockFees", "onsOptions.baseDomainPrice",
+	"stakingOptions.minSelfDelegationAmount", "stakingOptions.topValidatorCount", "stakingOptions.maturityTime",
+	"propOptions.configUpdate.initialFunding", "propOptions.codeChange.initialFunding", "propOptions.general.initialFunding",
+	"propOptions.configUpdate.fundingGoal", "propOptions.codeChange.fundingGoal", "propOptions.general.fundingGoal",
+	"propOptions.configUpdate.votingDeadline", "propOptions.codeChange.votingDeadline", "propOptions.general.votingDeadline",
+	"propOptions.configUpdate.fundingDeadline", "propOptions.codeChange.fundingDeadline", "propOptions.general.fundingDeadline",
+	"propOptions.configUpdate.passPercentage", "propOptions.codeChange.passPercentage", "propOptions.general.passPercentage",
+	"evidenceOptions.minVotesRequired", "evidenceOptions.blockVotesDiff", "evidenceOptions.penaltyBasePercentage",
+	"evidenceOptions.penaltyPercentage", "propOptions.general.passedFundDistribution"}
+
+var govOptionValues = []string{"0", "1", "-1", "3", "8", "16", "30", "51", "64", "67", "100", "101", "1000", "2000", "75001", "109200", "150000", "468001",
+	"1000000000", "3000000000000000000000000", "9223372036854775807", "9223372036854775808", "18446744073709551616", "abc", "", "1.5", "0x10", " 7"}
+
 func (g *Gen) gov() GenTx {
 	if len(g.Proposals) == 0 || g.R.Intn(7) == 0 {
 		a := g.acct()
@@ -252,6 +265,11 @@ func (g *Gen) gov() GenTx {
 			cus := []string{"feeOption.minFeeDecimal:8", "feeOption.minFeeDecimal:18", "onsOptions.perBlockFees:200000000000000", "feeOption.minFeeDecimal:12",
 				"onsOptions.baseDomainPrice:500000000000000000000", "stakingOptions.maturityTime:3", "bad"}
 			cu = cus[g.R.Intn(len(cus))]
+			if g.R.Intn(2) == 0 {
+				// every key of the option table (action/govUpdate.go) with values around what its
+				// validator admits: the table is consensus code every config proposal runs through
+				cu = govOptionKeys[g.R.Intn(len(govOptionKeys))] + ":" + govOptionValues[g.R.Intn(len(govOptionValues))]
+			}
 		}
 		init := int64(1000000000 + g.R.Intn(3)*3000000000)
 		p.Funded = init
